@@ -433,6 +433,17 @@ func (m *Manager) lock() {
 				acctInfo.acctKeyPriv.Zero()
 			}
 			acctInfo.acctKeyPriv = nil
+
+			// The last external and internal addresses are cached
+			// in the account info rather than in the address map,
+			// so their clear text private keys must be removed
+			// here.
+			if addr, ok := acctInfo.lastExternalAddr.(*managedAddress); ok {
+				addr.lock()
+			}
+			if addr, ok := acctInfo.lastInternalAddr.(*managedAddress); ok {
+				addr.lock()
+			}
 		}
 	}
 
